@@ -398,6 +398,12 @@ func TestCheck(t *testing.T) {
 			}
 			r.Eval(key, true)
 			req := &model.IngestRequest{Multihash: a.mh, ProviderID: signer.ID, ContextID: a.ctx, Metadata: a.md, Addrs: a.addrs, Seq: seq}
+			// the record's accessors are read-only: asked for its domain and
+			// payload type before it is sealed, the request is what it was
+			if dom, codec := req.Domain(), req.Codec(); dom != model.IngestRequestEnvelopeDomain || !bytes.Equal(codec, model.IngestRequestEnvelopePayloadType) || req.Seq != seq || ingestFields(req) != ingestFields(&model.IngestRequest{Multihash: a.mh, ContextID: a.ctx, Metadata: a.md, Addrs: a.addrs}) {
+				r.Violation("ingest:request-changed-by-its-own-accessors", key, fmt.Sprintf("after Domain() (%q) and Codec() a request built with sequence number %d has sequence number %d", dom, seq, req.Seq), nil)
+				continue
+			}
 			var env *record.Envelope
 			var serr error
 			if pn, pm := vp.Guard(func() { env, serr = record.Seal(req, signer.Priv) }); pn {
